@@ -52,6 +52,16 @@ Sensitivity (quick tier, seed 1, one mutant at a time on a scratch copy of torna
   M6 default port 80 also for https                          -> caught (C47.environ_server_name_port)
   M7 HTTP_ keys without the "-" -> "_" mapping               -> caught (C47.environ_http_header: HTTP_X_CUSTOM absent)
   M8 wsgi.input always empty                                 -> caught (C47.environ_input)
+
+  M9 WSGIContainer keeps one environ dict built in __init__ and updates it in place per request (lifecycle mutant)
+       -> caught at seeds 1, 2, 3 within 11 cases after every case became a history through ONE container on ONE kept-alive connection
+          (C47.environ_invented_header: a key of / written into the first request's environ shows up in the second); MISSED before: a fresh
+          container per request.  Also caught without the application's own edits via stale CONTENT_TYPE / HTTP_* keys.
+
+Histories (reuse dimension): 1-3 requests (mostly 2-3) through one WSGIContainer and one HTTPServer connection, each with its own
+request shape and its own application behaviour (the i-th call uses the i-th app spec), with and without the ThreadPoolExecutor; the
+application edits the environ it was given in place (adds HTTP_X_SET_BY_APPLICATION, pops CONTENT_TYPE / QUERY_STRING) as real
+applications do; every environ and every response slice is judged independently against the reference.
 """
 import concurrent.futures
 import re
@@ -157,9 +167,19 @@ def app_s(draw, method):
 
 @st.composite
 def case_s(draw):
-    req = draw(request_s())
-    app = draw(app_s(req["method"]))
-    return {"req": req, "app": app, "scheme": draw(st.sampled_from(["http", "http", "https"])),
+    """A history of 1-3 requests through ONE WSGIContainer on ONE kept-alive connection (mostly 2-3)."""
+    n = draw(st.sampled_from([1, 2, 2, 2, 3, 3]))
+    reqs, apps = [], []
+    for i in range(n):
+        req = draw(request_s())
+        if i < n - 1:
+            # every request but the last must leave the connection open
+            req["version"] = "HTTP/1.1"
+            if req["host"] is None:
+                req["host"] = "example.com"
+        reqs.append(req)
+        apps.append(draw(app_s(req["method"])))
+    return {"reqs": reqs, "apps": apps, "scheme": draw(st.sampled_from(["http", "http", "https"])),
             "executor": draw(st.sampled_from([False] * 24 + [True]))}
 
 
@@ -237,27 +257,37 @@ def build_request(req):
 
 
 class Closeable:
-    def __init__(self, chunks, record):
-        self.chunks, self.record = chunks, record
+    def __init__(self, chunks, record, idx):
+        self.chunks, self.record, self.idx = chunks, record, idx
 
     def __iter__(self):
         return iter(self.chunks)
 
     def close(self):
-        self.record["closed"] += 1
+        self.record["closed"][self.idx] += 1
 
 
-def make_app(spec, record):
-    total = sum(len(c) for c in spec["chunks"])
-    headers = [tuple(h) for h in spec["headers"]]
-    if spec["own_cl"]:
-        headers.append(("Content-Length", str(total)))
-    record["app_headers"] = list(headers)
+def make_app(specs, record):
+    """One WSGI application for the whole history: the i-th call behaves as specs[i]."""
+    record["app_headers"], record["closed"] = [], []
 
     def app(environ, start_response):
+        idx = len(record["environ"])
+        spec = specs[min(idx, len(specs) - 1)]
+        total = sum(len(c) for c in spec["chunks"])
+        headers = [tuple(h) for h in spec["headers"]]
+        if spec["own_cl"]:
+            headers.append(("Content-Length", str(total)))
+        record["app_headers"].append(list(headers))
+        record["closed"].append(0)
         e = dict(environ)
         e["wsgi.input"] = environ["wsgi.input"].read()
         record["environ"].append(e)
+        # applications own the environ they are given and routinely edit it in place
+        environ["HTTP_X_SET_BY_APPLICATION"] = "call-%d" % idx
+        environ["myapp.note"] = idx
+        environ.pop("CONTENT_TYPE", None)
+        environ.pop("QUERY_STRING", None)
         write = start_response(spec["status"], list(headers))
         chunks = list(spec["chunks"])
         style = spec["style"]
@@ -267,7 +297,7 @@ def make_app(spec, record):
         if style == "gen":
             return (c for c in chunks)
         if style == "closeable":
-            return Closeable(chunks, record)
+            return Closeable(chunks, record, idx)
         if style == "tuple":
             return tuple(chunks)
         return chunks
@@ -281,44 +311,55 @@ class DoneContainer(WSGIContainer):
     def __init__(self, app, executor, done):
         super().__init__(app, executor)
         self._done = done
-        self.started = False
+        self.started = 0
+        self.finished = 0
 
     def __call__(self, request):
-        self.started = True
+        self.started += 1
         return super().__call__(request)
 
     async def handle_request(self, request):
         try:
             await super().handle_request(request)
         finally:
+            self.finished += 1
             if self._done and not self._done[0].done():
                 self._done[0].set_result(None)
 
 
+def history_of(case):
+    """Old single-request cases (replays) are histories of length 1."""
+    if "reqs" in case:
+        return case["reqs"], case["apps"]
+    return [case["req"]], [case["app"]]
+
+
 def serve(case, record):
-    req = case["req"]
-    data, sent_hdrs, host = build_request(req)
+    reqs, specs = history_of(case)
+    built = [build_request(r) for r in reqs]
     kw = {"protocol": "https"} if case["scheme"] == "https" else {}
-    app = make_app(case["app"], record)
-    if not case["executor"]:
-        wire, closed, logs, _ = roundtrip(WSGIContainer(app), data, server_kwargs=kw)
-        return wire, closed, logs, sent_hdrs, host
-    executor = concurrent.futures.ThreadPoolExecutor(max_workers=1)
+    app = make_app(specs, record)
+    executor = concurrent.futures.ThreadPoolExecutor(max_workers=1) if case["executor"] else None
     try:
         with LogCapture() as logs:
             with vtime.virtual_loop() as (loop, io_loop):
-                loop.allow_block = True
+                loop.allow_block = bool(executor)
 
                 async def scenario():
                     done = [loop.create_future()]
                     container = DoneContainer(app, executor, done)
                     s = ServerSession(container, **kw)
-                    await s.send(data)
-                    # really wait for the worker thread(s): the loop blocks in select() until the
-                    # executor's call_soon_threadsafe wakes it up (only if the request reached the container)
-                    if container.started and not done[0].done():
-                        await done[0]
-                    await s.settle()
+                    for data, _, _ in built:
+                        if s.closed:
+                            break
+                        done[0] = loop.create_future()
+                        before = container.started
+                        await s.send(data)
+                        # with a real executor really wait for the worker thread(s): the loop blocks in select() until
+                        # call_soon_threadsafe wakes it up (only if the request reached the container)
+                        if executor and container.started > before and not done[0].done():
+                            await done[0]
+                        await s.settle()
                     wire, closed = s.wire, s.closed
                     if not s.closed:
                         s.stream.close()
@@ -327,15 +368,57 @@ def serve(case, record):
 
                 wire, closed = loop.run_until_complete(scenario())
     finally:
-        executor.shutdown(wait=True)
-    return wire, closed, logs, sent_hdrs, host
+        if executor:
+            executor.shutdown(wait=True)
+    return wire, closed, logs, built
 
 
 def run_case(ctx, case):
+    reqs, specs = history_of(case)
+    record = {"environ": []}
+    wire, closed, logs, built = serve(case, record)
+    labels = {"history_%d" % len(reqs)}
+    nontrivial = False
+    # split the server's byte stream into one slice per response with the strict reader
+    methods = [r["method"] for r in reqs]
+    try:
+        rs = parse_responses(wire, methods, closed)
+    except RefError as e:
+        rs = None
+        framing_err = str(e)
+    for i, req in enumerate(reqs):
+        sub_record = {"environ": record["environ"][i:i + 1],
+                      "app_headers": record["app_headers"][i] if i < len(record["app_headers"]) else [],
+                      "closed": record["closed"][i] if i < len(record["closed"]) else 0}
+        if rs is None:
+            # fall back to judging the whole stream against the first request (keeps single-request behaviour)
+            wire_i, closed_i = (wire, closed) if i == 0 else (b"", closed)
+        else:
+            start = rs[i - 1].end if 0 < i <= len(rs) else (0 if i == 0 else len(wire))
+            end = rs[i].end if i < len(rs) else len(wire)
+            wire_i = wire[start:end] if i < len(rs) else b""
+            closed_i = closed and i == len(rs) - 1
+        sub = {"req": req, "app": specs[i], "scheme": case["scheme"], "executor": case["executor"], "index": i,
+               "earlier": [(r["method"], r["path"], [k for k, _ in built[j][1]]) for j, r in enumerate(reqs[:i])]}
+        labs, nt = judge_one(ctx, sub, sub_record, wire_i, closed_i, logs, built[i][1], built[i][2])
+        labels |= labs
+        nontrivial = nontrivial or nt
+        if i > 0:
+            prev = {k.lower() for k, _ in built[i - 1][1]}
+            cur = {k.lower() for k, _ in built[i][1]}
+            if prev - cur:
+                labels.add("later_request_lacks_earlier_headers")
+                nontrivial = True
+        if "app_not_called" in labs or "no_response" in labs or "unparsed" in labs:
+            break
+    if rs is not None and len(rs) > len(reqs):
+        ctx.fail("C47.extra_response", {"responses": len(rs), "requests": len(reqs)})
+    ctx.note(case, labels, nontrivial)
+
+
+def judge_one(ctx, case, record, wire, closed, logs, sent_hdrs, host):
     req, spec = case["req"], case["app"]
-    record = {"environ": [], "closed": 0}
     labels = set()
-    wire, closed, logs, sent_hdrs, host = serve(case, record)
     method = req["method"]
     hclass = host_class(host)
     labels.add("host_" + hclass)
@@ -358,13 +441,14 @@ def run_case(ctx, case):
     labels.add("style_" + spec["style"])
     nontrivial = bool(labels & {"ipv6_host", "escaped_path", "repeated_header", "empty_port"}) or hclass in ("port", "huge_port")
     detail0 = {"request_line": (method, req["path"], req["query"], req["version"]), "host": (host[:40] if host else host),
-               "host_class": hclass, "scheme": case["scheme"], "executor": case["executor"]}
+               "host_class": hclass, "scheme": case["scheme"], "executor": case["executor"],
+               "index_in_history": case.get("index", 0), "earlier_requests": case.get("earlier", [])}
 
     # ---- the app must have been called exactly once (environ construction never raises)
     if len(record["environ"]) != 1:
         sig = "C47.environ_raises.host_port" if (hclass in ("empty_port", "huge_port") and not record["environ"]) else None
         ctx.fail("C47.app_not_called_once", dict(detail0, calls=len(record["environ"]), wire=wire[:200], logs=logs.uncaught()[:2]), sig=sig)
-        return ctx.note(case, labels | {"app_not_called"}, nontrivial)
+        return labels | {"app_not_called"}, nontrivial
     env = record["environ"][0]
 
     # ---- environ clauses
@@ -447,10 +531,10 @@ def run_case(ctx, case):
         rs = parse_responses(wire, [method], closed)
     except RefError as e:
         ctx.fail("C47.response_framing", dict(detail0, err=str(e), wire=wire[:300], app=spec))
-        return ctx.note(case, labels | {"unparsed"}, nontrivial)
+        return labels | {"unparsed"}, nontrivial
     if len(rs) != 1:
         ctx.fail("C47.response_missing", dict(detail0, responses=len(rs), wire=wire[:300], app=spec, logs=logs.uncaught()[:2]))
-        return ctx.note(case, labels | {"no_response"}, nontrivial)
+        return labels | {"no_response"}, nontrivial
     r = rs[0]
     if logs.uncaught():
         ctx.fail("C47.uncaught_exception", dict(detail0, logs=logs.uncaught()[:2], app=spec))
@@ -493,11 +577,11 @@ def run_case(ctx, case):
     if spec["style"] == "closeable" and record["closed"] != 1:
         ctx.fail("C47.close_not_called_once", dict(rdetail, closed=record["closed"]))
     labels.add("status_%s" % code)
-    ctx.note(case, labels, nontrivial)
+    return labels, nontrivial
 
 
 PARTS = {"main": run_case}
-REQUIRED = ["ipv6_host", "empty_port", "escaped_path", "repeated_header", "executor", "https", "style_closeable", "style_write",
+REQUIRED = ["history_2", "history_3", "later_request_lacks_earlier_headers", "ipv6_host", "empty_port", "escaped_path", "repeated_header", "executor", "https", "style_closeable", "style_write",
             "default_content_length", "host_port", "status_304"]
 
 
